@@ -51,10 +51,16 @@ def main():
         only = set()
         for l in open(os.environ['SWEEP_SURVIVORS']):
             if l.startswith('SURVIVED') and (' ' + rel + ':') in l:
-                body = l.split('|')[0]
+                body = l.rsplit(' | ', 1)[0]          # (the code text itself may contain '|')
                 ln = int(body.split(rel + ':')[1].split()[0])
                 newtxt = body.split('  ->  ')[1].strip()
                 only.add((ln, newtxt))
+        # skip what an interrupted second pass has already judged
+        if os.path.exists(os.environ.get('SWEEP_LOG', '')):
+            for l in open(os.environ['SWEEP_LOG']):
+                if (' ' + rel + ':') in l and '  ->  ' in l:
+                    body = l.rsplit(' | ', 1)[0]
+                    only.discard((int(body.split(rel + ':')[1].split()[0]), body.split('  ->  ')[1].strip()))
     for (i, a, b, rep) in ms[:n]:
         if only is not None:
             cand = (lines[i][:a] + rep + lines[i][b:]).strip()[:110]
